@@ -1,9 +1,13 @@
 // helpers about the ten non-fixed operand types
 #pragma once
 #include "common.h"
-static const char* const TN[11] = { "int8_t", "int16_t", "int32_t", "int64_t", "uint8_t", "uint16_t", "uint32_t", "uint64_t", "float", "double", "fixed_t" };
-static const int TBITS[8] = { 8, 16, 32, 64, 8, 16, 32, 64 };
-inline bool t_signed(int t) { return t < 4; }
+static const char* const TN[14] = { "int8_t", "int16_t", "int32_t", "int64_t", "uint8_t", "uint16_t", "uint32_t", "uint64_t", "float", "double", "fixed_t", "long long", "unsigned long long", "char" };
+static const int TBITS[14] = { 8, 16, 32, 64, 8, 16, 32, 64, 0, 0, 0, 64, 64, 8 };
+// the ten integral operand types: the eight fixed-width ones plus long long / unsigned long long (distinct from (u)int64_t = (unsigned) long on LP64)
+static const int INT_TYPES[10] = { T_I8, T_I16, T_I32, T_I64, T_U8, T_U16, T_U32, T_U64, T_LL, T_ULL };
+static const int ALL_TYPES[12] = { T_I8, T_I16, T_I32, T_I64, T_U8, T_U16, T_U32, T_U64, T_LL, T_ULL, T_F32, T_F64 };
+inline bool is_int_type(int t) { return t < 8 || t == T_LL || t == T_ULL || t == T_CHAR; }
+inline bool t_signed(int t) { return t < 4 || t == T_LL || t == T_CHAR; }
 inline i128 floor_div(i128 x, i128 d) { i128 q = x / d; if( (x % d != 0) && ((x < 0) != (d < 0)) ) --q; return q; }
 // mathematical value of the integer carried by 'bits' for integral type t
 inline i128 int_value(int t, u64 bits)
